@@ -18,7 +18,7 @@ def feat(rng):
 
 
 def run_shard(ctx):
-    d = drive.Driver(ctx, feat, flags="random", styles=("mixed", "runs", "dups"))
+    d = drive.Driver(ctx, feat, flags="random", styles=("mixed", "runs", "dups", "multisec"))
     d.loop(3000, 250000)
 
 
